@@ -8,6 +8,7 @@ import PyProb.Driver.CMS
 import PyProb.Driver.Cuckoo
 import PyProb.Driver.QF
 import PyProb.Driver.OnDisk
+import PyProb.Driver.Sizing
 
 namespace PyProb.Drv
 open PyProb
@@ -86,6 +87,7 @@ def step (st : St) (line : String) : St × String :=
   | ["reset"] => ({}, "reset")
   | cmd :: rest =>
       if cmd.startsWith "h." then (st, stepHashes cmd rest)
+      else if cmd.startsWith "sz." then (st, stepSizing cmd rest)
       else
         match rest with
         | h :: args =>
